@@ -54,6 +54,12 @@ CLAIMED = {
             "tempi / reference pattern list; label bijections per annotation); z3 shows the scores equal for all inputs on the path.",
             "Bounds as C01 (<=2x2 for shifts in quick); beat.evaluate with beats >= 5 s; segment/hierarchy time shift not in the statement; P-score out of reach. "
             "One genuine origin dependence (multipitch np.allclose relative tolerance) is a listed known finding.", "5 (C08)"),
+    "C03": ("Routing mode: all metric functions replaced by uninterpreted records with the original signatures, so evaluate()'s body, pre-processing and "
+            "filter_kwargs are the code analysed; every entry must equal the record of the documented direct call (key list, forced parameters, user "
+            "keywords incl. an unrelated one) with argument cells compared by z3. Semantic mode: real metrics on both sides, entries compared as terms, "
+            "values must be real scalars also for empty annotations.",
+            "Bounds: <=2+2 items routing, <=2+1 semantic (quick); all tasks except separation; documented key lists/forced parameters transcribed into the "
+            "harness; p_score/information_gain/karaoke metric stubbed in semantic mode. Two genuine defects fixed (thres spelling, tuple returns).", "5 (C03)"),
 }
 
 NA_REASON = "check not built yet in this revision (planned; see DESIGN.md section 5)"
